@@ -236,7 +236,7 @@ impl Check for C08 {
     }
     fn runs(&self, tier: Tier) -> u64 {
         match tier {
-            Tier::Quick => 3_000,
+            Tier::Quick => 10_000,
             Tier::Thorough => 150_000,
         }
     }
